@@ -118,7 +118,17 @@ ENV['DIVMOD_UNIQUE'] = divmod_unique
 ENV['MOD_STEP'] = mod_step
 ENV['DIV_STEP'] = div_step
 ENV['DIV_MONO'] = div_mono
+def sumr_zero(A, n):
+    """all entries below n zero => the sum is zero (induction on n; engine/selftest.py)"""
+    from engine.specfun import SUMR
+    A = getattr(A, 'z', A)
+    n = getattr(n, 'z', n)
+    t = _z3.Int('t!sz')
+    return _z3.Implies(_z3.ForAll([t], _z3.Implies(_z3.And(0 <= t, t < n), A[t] == 0)), SUMR(A, n) == 0)
+
+
 ENV['SUMR_UPD'] = sumr_upd
+ENV['SUMR_ZERO'] = sumr_zero
 MA_OK = 'And(_n >= 1, _buf.len == _n, 0 <= _pos, _pos < _n, _accum == SUMR(data(_buf), _n))'
 
 fn('dsplib::MAFilter<double>::process', D, sig='(const double &)', key='MAFilter<real>::process(scalar)',
@@ -135,7 +145,14 @@ fn('dsplib::MAFilter<double>::process', D, sig='(const base_array<double> &)', k
    serves=['C06', 'C05'], extra_env=ENV, assigns=['this._buf', 'this._pos', 'this._accum'],
    requires=[('invariant', MA_OK)], throws='False',
    ensures=[('invariant', MA_OK), ('length', 'result.len == x.len'),
-            ('position', '_pos == tmod(old._pos + x.len, _n)')],
-   loops={1: {'facts': ['MOD_STEP(old._pos + i, _n)'],
+            ('position', '_pos == tmod(old._pos + x.len, _n)'),
+            # at least n zeros in: nothing of the earlier stream is left
+            ('flushed', 'Implies(And(x.len >= _n, forall(lambda k: Implies(And(0 <= k, k < x.len), x[k] == 0))), '
+                        'And(forall(lambda t: Implies(And(0 <= t, t < _n), _buf[t] == 0)), _accum == 0))')],
+   post_facts=['SUMR_ZERO(data(_buf), _n)'],
+   loops={1: {'facts': ['MOD_STEP(old._pos + i, _n)', 'DIVMOD_UNIQUE(old._pos + i, _n, tdiv(old._pos + i, _n), _pos)'],
               'inv': [('inv', MA_OK), ('len', 'y.len == x.len'), ('pos', '_pos == tmod(old._pos + i, _n)'),
-                      ('n', 'And(_n == old._n)')]}})
+                      ('n', 'And(_n == old._n)'),
+                      # ring positions written by the first i pushes (counted from the entry position) hold zeros
+                      ('flush', 'Implies(forall(lambda k: Implies(And(0 <= k, k < x.len), x[k] == 0)), forall(lambda t: Implies(And(0 <= t, t < _n, '
+                                'If(t >= old._pos, t - old._pos, t - old._pos + _n) < i), _buf[t] == 0)))')]}})
